@@ -127,18 +127,18 @@ func concScripts(thorough bool) []*cscript {
 	gb := cs("GetBlock", "session", true, "B", "B C")
 	gb2 := cs("GetBlock", "direct", false, "B", "B")
 	all := []*cscript{
-		{name: "honest", quick: true, c: cs("GetBlocks", "direct", false, "A B C", "B C"), ending: "close"},
-		{name: "honest-session-reordered", quick: true, c: cs("GetBlocks", "session", true, "B A C", "C B"), ending: "close"},
+		{name: "honest", quick: true, c: cs("GetBlocks", "direct", false, "A B C", "B C"), ending: "close", delta: 1},
+		{name: "honest-session-reordered", quick: true, c: cs("GetBlocks", "session", true, "B A C", "C B"), ending: "close", delta: 1},
 		{name: "cancel-while-exchange-hangs", quick: true, c: cs("GetBlocks", "direct", false, "A B C", "B"), ending: "hang", cancel: true},
 		{name: "cancel-during-local-phase", quick: true, c: cs("GetBlocks", "ctxsession", true, "A A2 B", "B"), ending: "hang", cancel: true},
-		{name: "put-fails", quick: true, c: cs("GetBlocks", "direct", false, "B C", "B C"), ending: "close", failPut: true},
+		{name: "put-fails", quick: true, c: cs("GetBlocks", "direct", false, "B C", "B C"), ending: "close", failPut: true, delta: 2},
 		{name: "shared-session-two-calls", quick: true, c: cs("GetBlocks", "session", true, "B C", "B C"), second: &gb, ending: "close", delta: -1},
 		{name: "adversarial-exchange", quick: true, c: cs("GetBlocks", "direct", false, "A B", "D Bbad B"), ending: "close"},
-		{name: "duplicates", c: cs("GetBlocks", "direct", false, "B B A", "B B"), ending: "close"},
+		{name: "duplicates", c: cs("GetBlocks", "direct", false, "B B A", "B B"), ending: "close", delta: 1},
 		{name: "getblock-vs-getblocks", c: cs("GetBlocks", "direct", false, "B C", "B C"), second: &gb2, ending: "close", delta: -1},
 		{name: "cancel-after-close", c: cs("GetBlocks", "session", false, "A B", "B"), ending: "close", cancel: true},
 		{name: "put-fails-cancel", c: cs("GetBlocks", "direct", true, "B C", "B C"), ending: "hang", cancel: true, failPut: true},
-		{name: "getblock-cancel", c: cs("GetBlock", "ctxsession", true, "B", "B"), ending: "close", cancel: true, failPut: true},
+		{name: "getblock-cancel", c: cs("GetBlock", "ctxsession", true, "B", "B"), ending: "close", cancel: true, failPut: true, delta: 6},
 	}
 	if thorough {
 		return all
@@ -156,8 +156,12 @@ func concScenarios(thorough bool) []*vexp.Scenario {
 	var out []*vexp.Scenario
 	for _, s := range concScripts(thorough) {
 		s := s
+		delta := s.delta
+		if !thorough && delta > 0 {
+			delta = 0 // the raised bounds of the small scenarios are for the thorough tier
+		}
 		out = append(out, &vexp.Scenario{
-			Name: s.name, BoundDelta: s.delta,
+			Name: s.name, BoundDelta: delta,
 			Cfg: vsched.Config{MaxSteps: 20000, MaxIdleFires: 4, SelectCost: 1},
 			New: func() vexp.Exec { return &cexec{sc: s} },
 		})
